@@ -670,7 +670,7 @@ func (x *Exec) unop(st *State, i *ssa.UnOp) {
 		if g, ok := i.X.(*ssa.Global); ok {
 			if f := x.P.VarFuncs[x.P.pkgPrefix(g.Pkg.Pkg.Path())+"var "+g.Name()]; f != nil {
 				// package-level function variable, never reassigned (listed assumption, scanned)
-				x.note("package-level function variable %s assumed never reassigned", g.Name())
+				x.note("package-level function variable %s read as a constant (assigned by the initialiser only: obligation globals/immutable[%s] where declared)", g.Name(), g.Name())
 				fv := &FuncVal{Fn: f, Handle: x.D.FuncHandle(f.String())}
 				st.closures[fv.Handle.S] = fv
 				fr.vals[i] = fv
